@@ -7,7 +7,7 @@ PROP = {'n_quick': 260,
          "property's list applied to the real structures — explicit amount/asset, replaced or exchanged value/asset commitment, removed/exchanged/corrupted "
          'range or surjection proof, script of a blinded output, issuance amount, spent output with different amount/asset — at every applicable position '
          '(thorough) or one position per class and transaction (quick); (ii) `explicit`: all-explicit transactions, balanced / unbalanced in an input or '
-         'output / asset changed / zero amount on OP_RETURN, on the fee, on a spendable script / wrong number of spent outputs, plus explicit '
+         'output / asset changed / zero amount on OP_RETURN, on the fee, on a short spendable script, on scripts of exactly 10_000 (spendable) and 10_001 bytes (over MAX_SCRIPT_SIZE) / wrong number of spent outputs, plus explicit '
          'transactions over confidential spent outputs; distinct = (transaction, tamper) text; non-trivial = the tamper changed the transaction (all do)',
  'trusted': ['IDEAL-COMMITMENT MODEL as for C04 (partial w.r.t. cryptography): formal commitments over independent generators; ideal range/surjection proofs '
              'whose soundness and binding are built in (a proof verifies iff intact, presented with exactly its statement, with a correct witness)',
